@@ -17,7 +17,13 @@ HEADSHA=$(git -C /repo rev-parse --short HEAD)
 cd $WT
 export TMPDIR=/tmp/cs-tmp-$ID; mkdir -p $TMPDIR
 /venv/bin/python $OUT/demo.py $WT > $OUT/demo_clean.txt 2>&1; DC=$?
-if ! git apply $OUT/patch.diff 2> $OUT/apply.err; then echo "APPLY FAILED" ; cat $OUT/apply.err; fi
+if ! git apply $OUT/patch.diff 2> $OUT/apply.err; then
+  # the change was written against an earlier HEAD and touches lines a later fix: commit changed: confirm it on its own base
+  BASE=${SEED_BASE:-2bcd28a}
+  cd /; git -C /repo worktree remove --force $WT; git -C /repo worktree add -q --detach $WT $BASE || exit 3
+  HEADSHA="$BASE (base of the change; HEAD is $HEADSHA)"; cd $WT
+  if ! git apply $OUT/patch.diff 2> $OUT/apply.err; then echo "APPLY FAILED"; cat $OUT/apply.err; fi
+fi
 /venv/bin/python $OUT/demo.py $WT > $OUT/demo_patched.txt 2>&1; DP=$?
 # pinned suite on the patched tree (stable_pass list from BASELINE)
 ( cd $WT && env -u COOLER_VERIF PYTHONPATH=$WT/src /venv/bin/python -m pytest -q -p no:cacheprovider --timeout=900 --continue-on-collection-errors --junitxml=$TMPDIR/junit.xml > $TMPDIR/suite.log 2>&1 )
